@@ -50,7 +50,7 @@ func backtrackCases(c *ctx, n int, nIn int, probes bool, inline bool) []*gcase {
 func c03(c *ctx) {
 	cases := backtrackCases(c, tierN(c, 240, 5000), 16, false, false)
 	cfgs := []config{{name: "memo", v: vPlain, memo: true}, {name: "nomemo", v: vPlain}, {name: "size1", v: vPlain, memo: true, size: 1}, {name: "size4", v: vPlain, size: 4}, {name: "both", v: vBoth, memo: true}}
-	f := &family{c: c, tag: "c03", configs: cfgs, noexec: true}
+	f := &family{c: c, tag: "c03", configs: cfgs, noexec: true, history: []string{"memo", "both"}}
 	f.judge = func(cs *gcase, e entry, it *ref.Interp, refOK bool, refEnd int, res map[string]*corpus.Res) {
 		covAccumulate(c, it)
 		id := report.Hash(cs.text, fmt.Sprint(e.rule), e.input)
@@ -101,7 +101,7 @@ func c03(c *ctx) {
 func c04(c *ctx) {
 	cases := backtrackCases(c, tierN(c, 240, 5000), 16, false, false)
 	cfgs := []config{{name: "plain", v: vPlain, memo: true}, {name: "inline", v: vInline, memo: true}, {name: "nomemo", v: vPlain}, {name: "switch", v: vSwitch, memo: true}}
-	f := &family{c: c, tag: "c04", configs: cfgs}
+	f := &family{c: c, tag: "c04", configs: cfgs, history: []string{"plain", "switch"}}
 	f.judge = func(cs *gcase, e entry, it *ref.Interp, refOK bool, refEnd int, res map[string]*corpus.Res) {
 		covAccumulate(c, it)
 		id := report.Hash(cs.text, fmt.Sprint(e.rule), e.input)
